@@ -1,5 +1,7 @@
 package storage
 
+import "github.com/boltdb/bolt"
+
 // VerifClose closes the bolt database behind a DiskStorage (the daemon never closes it;
 // harnesses open one database per case).
 func VerifClose(s Storage) error {
@@ -7,4 +9,23 @@ func VerifClose(s Storage) error {
 		return d.db.Close()
 	}
 	return nil
+}
+
+// VerifBreak makes every following write of a DiskStorage fail at the disk (the bolt
+// database is closed, as after an I/O error) until the returned function re-opens it.
+func VerifBreak(s Storage) (repair func() error) {
+	d, ok := s.(*DiskStorage)
+	if !ok || d.db == nil {
+		return func() error { return nil }
+	}
+	path := d.db.Path()
+	_ = d.db.Close()
+	return func() error {
+		db, err := bolt.Open(path, 0600, nil)
+		if err != nil {
+			return err
+		}
+		d.db = db
+		return nil
+	}
 }
